@@ -3,22 +3,29 @@
    (queued) head visits exactly the records la (lq), each once, Prev is the inverse of Next, tail and size are the stored
    ones, membership in la / lq is exactly status Active / Queued, every other record is unlinked. *)
 From Coq Require Import List NArith Bool Lia.
-From Verif Require Import Common.Util Staker.Model Staker.Base Staker.Lists Staker.Inv Staker.ProofsStep Staker.ProofsUser Staker.ProofsHist.
+From Verif Require Import Common.Util Staker.Model Staker.Base Staker.Lists Staker.Inv Staker.RList Staker.Inv2 Staker.ProofsStep
+  Staker.ProofsUser Staker.ProofsUser2 Staker.ProofsHist Staker.ProofsEpoch Staker.ProofsAll.
 Import ListNotations.
 Open Scope N_scope.
 
 (* ---- well-formedness ---- *)
 
-(* FULL statement (not proved in full): along every history there are lists la lq with WF *)
-Definition lists_wellformed_statement : Prop :=
-  forall c d m ops, exists la lq, WF (run c (init d m) ops) la lq.
+(* along EVERY history (user operations by any actors, blocks with the PoA->PoS transition and housekeeping: renewals, the
+   scheduled exit, evictions, activations) the active and queued lists are well formed *)
+Theorem lists_wellformed c d m ops : exists la lq, WF (run c (init d m) ops) la lq.
+Proof. destruct (history_FullInv c d m ops) as [la [lq H]]. exists la, lq. exact (f_wf _ _ _ H). Qed.
 
-(* proved: WF holds initially, is preserved by every user operation and every non-epoch block (the active list is not even
-   touched by them); the epoch-boundary step is the explicit premise (see C16.counters_sum_partial) *)
-Theorem lists_wellformed_partial c d m ops :
-  epoch_step_preserves c -> exists la lq, WF (run c (init d m) ops) la lq.
+(* the total weight used for scheduling scores and finality thresholds is the sum of the stored weights, every record that is
+   not active has weight 0, and an active record's weight is its own weighted stake plus its delegations' locked weight *)
+Theorem total_weight_is_sum_of_active_weights c d m ops :
+  let s := run c (init d m) ops in
+  g_lw s = sumf v_weight (vals s) /\
+  (forall a v, getv s a = Some v -> v_status v <> StatusActive -> v_weight v = 0) /\
+  (forall a v, getv s a = Some v -> v_status v = StatusActive ->
+     v_weight v = calc_weight (v_locked v) (v_multiplier v) + a_lw (get_agg s a)).
 Proof.
-  intros H. destruct (run_InvAll c (init d m) ops H (InvAll_init d m)) as [la [lq [Hwf _]]]. exists la, lq; auto.
+  destruct (history_FullInv c d m ops) as [la [lq H]]. pose proof (f_2 _ _ _ H) as J. cbv zeta.
+  split; [apply (j_lw _ J)|split; [apply (j_w0 _ J)|]]. intros a v Hv Hs. apply (j_w1 _ J a v Hv Hs).
 Qed.
 
 (* the list operations themselves, for all lists and positions (head / middle / tail / only element):
@@ -111,10 +118,28 @@ Proof.
   unfold compute_epoch_transition. intros H.
   apply bind_ok in H as [ev [_ H]]. apply bind_ok in H as [ren [_ H]]. inversion H; reflexivity.
 Qed.
-(* FULL statement, not proved: the applied transition shrinks the active list by at most that one record *)
-Definition at_most_one_exit_per_epoch_statement : Prop :=
-  forall c s la lq la' lq', WF s la lq -> WF (step c s OBlock) la' lq' ->
-    forall a b, In a la -> In b la -> ~ In a la' -> ~ In b la' -> a = b.
+(* at most one validator leaves the leader group per block, namely the one scheduled in the exit map for that block
+   (la, la' are THE active lists before and after: WF determines them) — for every state reached by a history *)
+Theorem at_most_one_exit_per_epoch c d m ops la lq la' lq' :
+  let s := run c (init d m) ops in
+  WF s la lq -> WF (step c s OBlock) la' lq' ->
+  forall a b, In a la -> In b la -> ~ In a la' -> ~ In b la' -> a = b /\ a = get_exit s (blk s + 1).
+Proof.
+  cbv zeta. intros W W' a b Ha Hb Na Nb. destruct (history_FullInv c d m ops) as [la0 [lq0 HF]].
+  rewrite (WF_active_unique _ _ _ _ _ W (f_wf _ _ _ HF)) in Ha, Hb.
+  pose proof (one_exit_per_block c _ la0 lq0 la' lq' HF W' a Ha Na). pose proof (one_exit_per_block c _ la0 lq0 la' lq' HF W' b Hb Nb).
+  split; congruence.
+Qed.
+
+(* along histories, user operations and non-epoch blocks leave the leader group, its weights and the total weight unchanged *)
+Theorem set_changes_only_at_epoch_along_histories c d m ops o :
+  let s := run c (init d m) ops in
+  (is_block o = true -> (blk s + 1) mod c_epoch c <> 0) ->
+  leader_weights (step c s o) = leader_weights s /\ g_lw (step c s o) = g_lw s.
+Proof.
+  cbv zeta. intros Hb. destruct (history_FullInv c d m ops) as [la [lq [W I A J]]].
+  destruct (set_changes_only_at_epoch c o _ la lq W I A Hb) as [E1 [E2 _]]. auto.
+Qed.
 
 (* ---- non-vacuity: the hypotheses of set_changes_only_at_epoch hold in the initial state ---- *)
 Example ex_hyps : exists la lq, WF (init 0 5) la lq /\ Inv1 (init 0 5) /\ InvA (init 0 5).
@@ -122,7 +147,10 @@ Proof. exact (InvAll_init 0 5). Qed.
 Example ex_two_thirds : l_size (act (init 0 5)) = 0 /\ l_size (que (init 0 5)) * 3 < get_mbp (init 0 5) * 2.
 Proof. vm_compute. split; reflexivity. Qed.
 
-Print Assumptions lists_wellformed_partial.
+Print Assumptions lists_wellformed.
+Print Assumptions total_weight_is_sum_of_active_weights.
+Print Assumptions at_most_one_exit_per_epoch.
+Print Assumptions set_changes_only_at_epoch_along_histories.
 Print Assumptions remove_keeps_wellformed.
 Print Assumptions add_keeps_wellformed.
 Print Assumptions leader_group_enumerates_active_once.
